@@ -28,7 +28,7 @@ func MarshalConst(w io.Writer, c Value, budget uint64) (used uint64, err error) 
 	if _, err := w.Write(marshalPrefix); err != nil {
 		return 0, err
 	}
-	bw := bwriter{w: w, budget: budget}
+	bw := bwriter{w: w, budget: budget, unlimited: budget == 0}
 	bw.writeConst(c)
 	return budget - bw.budget, bw.err
 }
@@ -48,7 +48,7 @@ func UnmarshalConst(r io.Reader, budget uint64) (v Value, used uint64, err error
 	if err != nil {
 		return
 	}
-	br := breader{r: r, budget: budget}
+	br := breader{r: r, budget: budget, unlimited: budget == 0}
 	v = br.readConst()
 	return v, budget - br.budget, br.err
 }
@@ -60,7 +60,8 @@ type bwriter struct {
 	w   io.Writer
 	err error
 
-	budget uint64
+	budget    uint64
+	unlimited bool // true if there is no budget (as opposed to a budget that has reached 0)
 }
 
 func (w *bwriter) writeConst(c Value) {
@@ -141,7 +142,7 @@ func (w *bwriter) writeString(s string) {
 }
 
 func (w *bwriter) consumeBudget(amount uint64) {
-	if w.budget == 0 {
+	if w.unlimited {
 		return
 	}
 	if w.budget < amount {
@@ -160,7 +161,8 @@ type breader struct {
 	r   io.Reader
 	err error
 
-	budget uint64
+	budget    uint64
+	unlimited bool // true if there is no budget (as opposed to a budget that has reached 0)
 }
 
 func (r *breader) readConst() (v Value) {
@@ -277,7 +279,7 @@ func (r *breader) readString() (s string) {
 }
 
 func (r *breader) consumeBudget(amount uint64) {
-	if r.budget == 0 {
+	if r.unlimited {
 		return
 	}
 	if r.budget < amount {
